@@ -225,7 +225,9 @@ DeleteMulti(st, cfg, op) ==
          THEN \* version ids are ignored by backends without versioning: don't-care
               {}
   ELSE {R(s2, [st |-> 200, code |-> "",
-               deleted |-> [i \in 1..Len(op.objs) |-> op.objs[i].k]])
+               \* <Quiet>true</Quiet>: the same deletions, reported by their failures only
+               deleted |-> IF "quiet" \in DOMAIN op /\ op.quiet THEN <<>>
+                           ELSE [i \in 1..Len(op.objs) |-> op.objs[i].k]])
           : s2 \in MultiDel(e.st, cfg, op.b, op.objs, 1)}
 
 \* copy = read source, then the ordinary write (two critical sections in the
